@@ -144,6 +144,7 @@ def run(ctx):
                 "5e-11, 1.5e-10, 2, 2+1e-9; non-default mininu/minilam/base) and x grids inside the conditioning regions, backward(forward(x)) and "
                 "forward(backward(y)) are logged as 24-bit mantissa/exponent pairs and TransformTrace.tla checks the 1e-6 relative round trip. "
                 "distinct = (transform setting, direction); all non-trivial.")
+    tc.RANDOM_SETTINGS[:] = [0 if ctx.tier == "quick" else 1200, ctx.seed]
     exact_replay(ctx, T)
     relation_traces(ctx, T)
     ctx.assumptions += ["accuracy of log/exp/pow at arbitrary float64 arguments is not decided; outside the rational sub-domain only relations between "
